@@ -27,11 +27,11 @@ class Skipped(Exception):
 
 _WD = {"depth": 0, "fired": 0, "t0": 0.0, "armed": False}
 MAX_TIMEOUTS = 4  # after that many hangs the remaining calls are not attempted any more
-BUDGET = 2.0      # seconds a single call into the library may take
+BUDGET = 5.0      # CPU seconds (process time: immune to a loaded machine) a single call into the library may take
 
 
 def _tick(*_):
-    if _WD["depth"] and time.monotonic() - _WD["t0"] > BUDGET:
+    if _WD["depth"] and time.process_time() - _WD["t0"] > BUDGET:
         _WD["fired"] += 1
         _WD["depth"] = 0
         raise SimTimeout()
@@ -55,7 +55,7 @@ def deadline():
         signal.setitimer(signal.ITIMER_REAL, 0.5, 0.5)
         _WD["armed"] = True
     if _WD["depth"] == 0:
-        _WD["t0"] = time.monotonic()
+        _WD["t0"] = time.process_time()
     _WD["depth"] += 1
     try:
         yield
